@@ -99,6 +99,13 @@ C["C18"]["text"]+=" Expiry pairs: two exports (kinds, validities, one or two ori
 C["C11"]["text"]+=" Family F11: the store already holds what this client uploads (another client with a shard cache of its own stored it); the upload must still be recorded, so that the client's own repeat session transfers nothing."
 C["C10"]["text"]+=" The consolidation menu holds a xorbs-only shard without lookup tables (footer counts 0)."
 C["C01"]["text"]+=" C01x also runs the concurrent scenario [abc,de,(empty)] under one upload permit."
+C["C16"]["text"]+=" Family inject-retry: the explored session (with its failures) is followed in the same process by a fault-free repeat, which is the one judged; scenario inject-conc2r: two cleaners that both register a xorb while the only permit is held."
+C["C17"]["text"]+=" Downloads to an output path that cannot be created: an error, or Ok(n) with n bytes at the path."
+C["C19"]["text"]+=" After a restart every complete cache item file still on disk must be tracked."
+C["C20"]["text"]+=" History oracle: no task of a key starts while another task of that key is executing; four-caller harness (another key's caller returns between a task's end and its owner's return) over every non-preemptive choice (quick) / one preemption (thorough)."
+C["C12"]["text"]+=" Damage alphabet also: renames to a narrower/wider range with the same start (then the items put again), planted key-directory-like names that begin with their prefix directory's characters."
+C["C08"]["text"]+=" forge-sections: layout-1 footers whose sections disagree about the chunk count while every offset fits."
+C["C01"]["text"]+=" C01x/C03x/C15x: four one-chunk files under one chunk per xorb and one permit (symmetry-reduced); a fault-free hang is a C01x violation."
 C["C09"]["text"]+=" Every shard of up to 12 records is also built with every record added twice, and with a different record first replaced under each key: same bytes, shard_file_size() = serialized length."
 C["C10"]["text"]+=" The family holds one file under three segmentations x all flag sets (acceptable merged records = one side's segments with that side's verification); thresholds include u64::MAX; the size estimate of in-memory union/difference results must equal the serialized size."
 C["C10"]["tech"]=C["C10"]["tech"].replace("4 thresholds","5 thresholds incl. u64::MAX")
